@@ -167,6 +167,12 @@ def judge_geo1(case):
     g = host.geo1
     if j.check(g is not None, "def_geo1-none", "geo1 not set"):
         _judge_geo1_result(j, (g.sens_names, g.sens_coord, g.sens_dir, g.sens_lines, g.bg_nodes, g.bg_lines, g.bg_surf), d, truth, names, "def_geo1")
+    # the same table objects define a second geometry (another setup, or a re-definition): same outcome
+    host2 = _host(nc)
+    r = sut(host2.def_geo1, **kw)
+    if j.check(not raised(r), "def_geo1-again-raises", lambda: f"second def_geo1 from the same tables: {r!r}"):
+        g = host2.geo1
+        _judge_geo1_result(j, (g.sens_names, g.sens_coord, g.sens_dir, g.sens_lines, g.bg_nodes, g.bg_lines, g.bg_surf), d, truth, names, "def_geo1-again")
     return j
 
 
@@ -295,6 +301,11 @@ def judge_geo2(case):
     g = host.geo2
     if j.check(g is not None, "def_geo2-none", "geo2 not set"):
         _judge_geo2_result(j, (g.sens_names, g.pts_coord, g.sens_map, g.cstrn, g.sens_sign, g.sens_lines, g.sens_surf, g.bg_nodes, g.bg_lines, g.bg_surf), d, names, "def_geo2")
+    host2 = _host(nc)
+    r = sut(host2.def_geo2, **kw)
+    if j.check(not raised(r), "def_geo2-again-raises", lambda: f"second def_geo2 from the same tables: {r!r}"):
+        g = host2.geo2
+        _judge_geo2_result(j, (g.sens_names, g.pts_coord, g.sens_map, g.cstrn, g.sens_sign, g.sens_lines, g.sens_surf, g.bg_nodes, g.bg_lines, g.bg_surf), d, names, "def_geo2-again")
     return j
 
 
@@ -548,11 +559,11 @@ def judge_mode_geo1(case):
 
 
 SUBS = [
-    Sub("geo1_tables", judge_geo1, geo1_case(), quick=200, thorough=6000,
+    Sub("geo1_tables", judge_geo1, geo1_case(), quick=400, thorough=6000,
         rule="check_on_geo1 / def_geo1 (DataFrame and documented array arguments) on valid table sets: names flattened, rows re-ordered to the names, indices zero-based, absent sheets None"),
-    Sub("geo2_tables", judge_geo2, geo2_case(), quick=200, thorough=6000,
+    Sub("geo2_tables", judge_geo2, geo2_case(), quick=400, thorough=6000,
         rule="check_on_geo2 / def_geo2 on valid table sets with every combination of optional sheets: outputs as specified, NaN mapping cells -> 0, constraint columns aligned to the names"),
-    Sub("corruptions", judge_corrupt, corrupt_case(), quick=300, thorough=6000,
+    Sub("corruptions", judge_corrupt, corrupt_case(), quick=1200, thorough=12000,
         rule="every single-fault corruption of a valid table set (13 fault kinds per geometry) raises ValueError and defines no geometry"),
     Sub("mapping", judge_mapping, geo2_case(), quick=100, thorough=3000,
         rule="gen.dfphi_map_func: cell = phi of the named sensor, constraint row . phi for constraint names, 0 elsewhere; plot_mode_geo2_mpl draws points + mapped*sign*scale"),
